@@ -309,8 +309,11 @@ CallSetLp(a, e) ==
   LET fr == Frames(a, e.t)
       live == Has(a.sp, e.h) /\ ~a.sp[e.h].noop /\ LiveDepth(fr) < a.cfg.stack
       lin == IF live THEN [i \in DOMAIN a.sp[e.h].lin |-> [a.sp[e.h].lin[i] EXCEPT !.par = e.h]] ELSE <<>> IN
+  \* a scope refused because too many are nested is overload as well (C09): what the thread records from
+  \* now on must still be right
   [a EXCEPT !.ctx = Put(@, e.t, Append(fr, [k |-> "lp", n |-> e.g, live |-> live])),
-            !.sc = Put(@, e.g, [k |-> "lp", h |-> e.h, lin |-> lin, smp |-> AnySampled(lin), ents |-> <<>>, t |-> e.t])]
+            !.sc = Put(@, e.g, [k |-> "lp", h |-> e.h, lin |-> lin, smp |-> AnySampled(lin), ents |-> <<>>, t |-> e.t]),
+            !.ovl = @ \/ (Has(a.sp, e.h) /\ ~a.sp[e.h].noop /\ LiveDepth(fr) >= a.cfg.stack)]
 
 PopFrame(a, t) == [a EXCEPT !.ctx = Put(@, t, Front(Frames(a, t)))]
 TopFrame(a, t) == Last(Frames(a, t))
@@ -334,7 +337,8 @@ CallDropGuard(a, e) ==
 CallLcStart(a, e) ==
   LET fr == Frames(a, e.t) live == a.cfg.enabled /\ LiveDepth(fr) < a.cfg.stack IN
   [a EXCEPT !.ctx = Put(@, e.t, Append(fr, [k |-> "lc", n |-> e.c, live |-> live])),
-            !.sc = Put(@, e.c, [k |-> "lc", h |-> None, lin |-> <<>>, smp |-> TRUE, ents |-> <<>>, t |-> e.t])]
+            !.sc = Put(@, e.c, [k |-> "lc", h |-> None, lin |-> <<>>, smp |-> TRUE, ents |-> <<>>, t |-> e.t]),
+            !.ovl = @ \/ (a.cfg.enabled /\ LiveDepth(fr) >= a.cfg.stack)]
 
 CallLcCollect(a, e) ==
   LET fr == Frames(a, e.t) i == FrameOf(fr, e.c) IN
@@ -755,6 +759,13 @@ Ids(a, e) ==
   THEN Viol(a1, "C02", "span-ids-not-distinct", [spans |-> Len(e.ids), distinct |-> Cardinality(S), threads |-> e.threads])
   ELSE a1
 
+\* attachments that are equal to each other (the same property or event attached several times, from one
+\* thread or several, across a cycle or not): every call attaches once more (C06).  Elsewhere the harness
+\* gives every attachment its own key, which is what lets Abs tell them apart.
+Dup(a, e) ==
+  IF e.got_props = e.want_props /\ e.got_events = e.want_events THEN a
+  ELSE Viol(a, "C06", "equal-attachments-merged-or-multiplied", [props |-> <<e.want_props, e.got_props>>, events |-> <<e.want_events, e.got_events>>])
+
 \* a long backlog on one queue (fewer commands than the queue holds, so nothing is refused), no cycle in
 \* between, then one flush(): everything finished before the call is there when it returns (C01 / C03)
 Burst(a, e) ==
@@ -874,6 +885,7 @@ AbsStep(a, e) ==
     [] e.ev = "idle"      -> Idle(a, e)
     [] e.ev = "ids"       -> Ids(a, e)
     [] e.ev = "burst"     -> Burst(a, e)
+    [] e.ev = "dup"       -> Dup(a, e)
     [] OTHER              -> a
 
 RECURSIVE AbsRun(_, _, _)
